@@ -6,7 +6,7 @@ use serde_json::{json, Value};
 use solang_parser::lexer::{Lexer, Token};
 use solstat::analyzer::utils::get_line_number;
 
-pub const CODELIKE: &str = "x++; selfdestruct(msg.sender); a.transfer(b); pragma solidity ^0.4.0; c >= d";
+pub const CODELIKE: &str = "transfer(address,uint256); approve(a, b); x++; selfdestruct(msg.sender); a.transfer(b); pragma solidity ^0.4.0; c >= d";
 
 pub fn atom_text(code: u8) -> &'static str {
     match code {
